@@ -359,6 +359,13 @@ func VerifC01FieldShortcuts() {
 		{`BEGIN { $2 = "v"; r = $0 }`, `BEGIN { $(2) = "v"; r = $0 }`},
 		{`BEGIN { arr[1] = "p"; r = arr[1]; s = (1 in arr) }`, `BEGIN { arr[(1)] = "p"; r = arr["1"]; s = ("1" in arr) }`},
 		{`BEGIN { r = sub(/a/, "b", $1); s = $0 }`, `BEGIN { u = $1; r = sub(/a/, "b", u); if (r) $1 = u; s = $0 }`},
+		// constants that do not fit the shortcut's operand must fall back to the general form
+		{`BEGIN { r = $2147483648; s = $4294967297; t = $4294967296 }`, `BEGIN { i = 2147483648; j = 4294967297; k = 4294967296; r = $i; s = $j; t = $k }`},
+		{`BEGIN { r = $1e10 "|" $-1 "|" $0.9 }`, `BEGIN { i = 1e10; j = -1; k = 0.9; r = $i "|" $j "|" $k }`},
+		// constant subscripts name the same element as a variable holding the same number, whatever CONVFMT is
+		{`BEGIN { CONVFMT = "%.2g"; arr[0.123456] = "p"; arr[12] = "q"; k = 0.123456; r = arr[k]; s = (k in arr); t = (0.123456 in arr) arr[12.0] }`,
+			`BEGIN { CONVFMT = "%.2g"; k = 0.123456; n = 12; arr[k] = "p"; arr[n] = "q"; r = arr[k]; s = (k in arr); t = (k in arr) arr[n] }`},
+		{`BEGIN { arr[1e6] = "m"; arr[16.0] = "h"; r = arr[1000000] arr[16]; s = (1e6 in arr) }`, `BEGIN { a = 1e6; b = 16; arr[a] = "m"; arr[b] = "h"; r = arr[a] arr[b]; s = (a in arr) }`},
 	}
 	pi := verifIntRange(0, len(pairs)-1)
 	env := verifEnv{rec: rec, vars: map[string]value{}}
